@@ -21,8 +21,8 @@ TRUSTED_BASE = [
     "Coq 8.16.1 kernel (coqc; vm_compute used in Examples only; no native_compute)",
     "axioms: none (Print Assumptions of every pinned theorem = 'Closed under the global context')",
     "extraction: ExtrOcamlBasic only (no Extract Constant/Inductive of our own); OCaml 4.13.1",
-    "hand-written glue: ocaml/driver.ml, harness/src/*.rs, tools/*.py (incl. the two source-to-Coq translators: "
-    "tools/srcconsts.py -> coq/SrcConsts.v, tools/c15.py -> coq/SharedShape.v)",
+    "hand-written glue: ocaml/driver.ml, harness/src/*.rs, tools/*.py (incl. the three source-to-Coq translators: "
+    "tools/srcconsts.py -> coq/SrcConsts.v, tools/srccodec.py -> coq/SrcCodec.v, tools/c15.py -> coq/SharedShape.v)",
     "cryptographic primitives (BLAKE2b-256, CRC-32, Ed25519) are parameters of the model; at run time "
     "both sides use the blake2 / crc32fast / ed25519-dalek crates",
     "dependency crates flat-tree, compact-encoding, random-access-* are modelled, not verified",
@@ -92,15 +92,28 @@ def coq_gate(prop_file, clean=False):
     if os.environ.get("VERIF_ESCALATED"):
         clean = thorough = False      # an escalated search re-uses the build of the quick run
     chk_out = None
+    bdir = COQ
     lk = _lock()
     try:
-        if clean:
-            run("make clean >/dev/null 2>&1; rm -f Makefile Makefile.conf", cwd=COQ)
         # source-derived input of the development: the crate's named constants as /repo/src states them now
-        import srcconsts, srcshape
+        import srcconsts, srccodec, srcshape, shutil
         src_consts = srcconsts.regenerate(COQ)
+        # ... and the wire codecs as /repo/src/encoding.rs states them now (field lists of the three macros)
+        src_codecs = srccodec.regenerate(COQ)
         srcshape.write_shape_v(srcshape.shared_shape())
-        rc, out = run("coq_makefile -f _CoqProject -o Makefile >/dev/null && timeout 1500 make -j16", cwd=COQ)
+        if clean:
+            # thorough tier: a build from clean in a private copy of the sources (so that concurrent checks keep their
+            # incremental build), later re-checked there by coqchk
+            bdir = os.path.join(CACHE, "coq_clean_" + prop_file[:-2])
+            shutil.rmtree(bdir, ignore_errors=True)
+            os.makedirs(os.path.join(bdir, "props"))
+            for f in coq_sources() + [os.path.join(COQ, "_CoqProject"), os.path.join(COQ, "props", "PINS.json")]:
+                shutil.copy(f, os.path.join(bdir, os.path.relpath(f, COQ)))
+            lk.close()
+            lk = None
+        # (the private thorough build compiles the dependency cone of the property file only)
+        target = ("props/%s.vo" % prop_file[:-2]) if bdir != COQ else ""
+        rc, out = run("coq_makefile -f _CoqProject -o Makefile >/dev/null && timeout 3000 make -j16 %s" % target, cwd=bdir, timeout=3300)
         if rc != 0:
             tail = "\n".join(out.strip().split("\n")[-12:])
             problems.append("coq build failed:\n" + tail)
@@ -126,7 +139,7 @@ def coq_gate(prop_file, clean=False):
             if pins.get(prop_file) != h:
                 problems.append("statements in %s differ from the pinned version (PINS.json)" % prop_file)
             if rc == 0:
-                rc2, out2 = run("timeout 600 coqc -Q . HC props/%s" % prop_file, cwd=COQ)
+                rc2, out2 = run("timeout 600 coqc -Q . HC props/%s" % prop_file, cwd=bdir)
                 if rc2 != 0:
                     problems.append("coqc %s failed:\n%s" % (prop_file, out2[-800:]))
                 closed = out2.count("Closed under the global context")
@@ -135,19 +148,23 @@ def coq_gate(prop_file, clean=False):
                 assumptions = ["Closed under the global context"] * closed
                 if thorough and not problems:
                     # independent re-check of the compiled property file and everything it depends on
-                    ok, chk_out = coqchk(prop_file)
+                    ok, chk_out = coqchk(prop_file, bdir)
                     if not ok:
                         problems.append("coqchk failed: " + chk_out[-600:])
     finally:
-        lk.close()
+        if lk is not None:
+            lk.close()
+        if bdir != COQ:
+            shutil.rmtree(bdir, ignore_errors=True)
     return dict(ok=not problems, problems=problems, theorems=theorems, assumptions=assumptions,
                 wall_s=time.time() - t0, coqchk=(chk_out[-700:] if chk_out else None), src_consts=src_consts,
+                src_codecs=src_codecs,
                 checker_cmd="cd /verif/coq && coq_makefile -f _CoqProject -o Makefile && make -j16 && coqc -Q . HC props/%s" % prop_file)
 
 
-def coqchk(prop_file):
+def coqchk(prop_file, bdir=None):
     mod = "HC.props." + prop_file[:-2]
-    rc, out = run("timeout 1500 coqchk -silent -o -Q . HC %s" % mod, cwd=COQ)
+    rc, out = run("timeout 3000 coqchk -silent -o -Q . HC %s" % mod, cwd=bdir or COQ, timeout=3300)
     return rc == 0, out[-1500:]
 
 
@@ -540,6 +557,7 @@ class Result:
                 correspondence_disagreements=len(self.disagreements),
                 **({"coqchk": gate["coqchk"]} if gate.get("coqchk") else {}),
                 **({"source_constants_tied": gate["src_consts"]} if gate.get("src_consts") else {}),
+                **({"source_codecs_tied": gate["src_codecs"]} if gate.get("src_codecs") and self.prop == "C11" else {}),
                 **self.extra),
             assumptions=[level_text] + self.notes,
             wall_s=round(time.time() - self.t0, 2),
